@@ -231,7 +231,7 @@ def reduce_inv(p, rn):
     return p
 
 
-from .procmodel import INV_REG
+from .mirsym import INV_REG
 
 
 def r3_substitution(ctx, F, M):
